@@ -114,6 +114,7 @@ def run_once(case, out, stats):
     ran_on = {}         # id -> thread ident
     ended = {}          # id -> "return"|"raise"|"cancelled"
     started_flag = {}
+    script_released = set()
     futures = {}
     results = {}        # id -> what the issuing thread observed
     events = {}         # id -> anyio.Event (created in the loop)
@@ -249,6 +250,7 @@ def run_once(case, out, stats):
                 for key in (i, ("pre", i)):
                     ev = events.get(key)
                     if ev is not None:
+                        script_released.add(i)
                         portal.call(ev.set)
         except RuntimeError as e:
             # the portal (or its task group / event loop) no longer accepts calls
@@ -461,8 +463,10 @@ def run_once(case, out, stats):
     for key in list(results):
         if isinstance(key, tuple) and key[0] == "cancelled":
             i = key[1]
-            if execs.get(i) and ended.get(i) not in ("cancelled",) and started_flag.get(i) and not (
-                    events.get(i) is not None and events[i].is_set()):
+            # (a release by the script may race with the cancel; the harness' own late release cannot: it comes after
+            # every pre-exit step has returned, and Future.cancel() returns only after scope.cancel() ran in the loop)
+            if execs.get(i) and ended.get(i) not in ("cancelled",) and started_flag.get(i) \
+                    and i not in script_released:
                 out.bad("future-cancel-did-not-cancel-task", "", f"task {i} ended {ended.get(i)!r}")
     for i, how in ended.items():
         if how == "cancelled" and ("cancelled", i) not in results and case["exit"] != "raise":
@@ -536,7 +540,10 @@ def run_stopseq(case, out, stats):
             pass
         if not any(case["stops"]) or verdict.get("pending"):
             for ev in list(events.values()):
-                loop.call_soon_threadsafe(ev.set)      # harness plumbing: let the parked tasks finish
+                try:
+                    loop.call_soon_threadsafe(ev.set)      # harness plumbing: let the parked tasks finish
+                except RuntimeError:
+                    break       # the loop is gone already: nothing is parked any more (judged by the rules below)
     stats["stop_from_task"] += 1
     if len(case["stops"]) >= 2:
         stats["stop_called_twice"] += 1
